@@ -45,6 +45,7 @@ func vp8Sig(desc string) string {
 
 func checkC04(args []string) {
 	run := vx.NewRun("C04", "model_checking", args)
+	activeRun = run
 	run.Rule = "(1) valid VP8 key frames outside the package encoder's repertoire are produced by a seeded structure generator (segment maps with absolute/delta quantisers and filter strengths, quantiser index 0..127 with all five deltas, simple/normal filter, level 0..63, sharpness 0..7, loop-filter deltas with and without update, 1/2/4/8 partitions, with and without the skip flag, coded macroblocks whose residuals are all zero, every 16x16 / 4x4 / chroma mode, coefficient patterns over all token categories, probability updates); the TLA+ reader (spec/Vp8.tla) defines the planes and webp.Decode must return them bit-exactly; consecutive frames are decoded in one process so that pooled decoder state meets foreign headers; (2) libwebp-encoded files are decoded by the real decoder against libwebp's own reference planes (and by the TLA+ reader in the thorough tier); (3) ALPH chunks of the real encoder and raw/filtered ones are validated by C07's machinery. distinct = distinct generated frames accepted by the specification"
 	run.Assumptions = []string{"coefficient magnitudes are bounded so that dequantised values stay inside 16 bits", "frames up to 3x2 macroblocks in the quick tier (TLC speed)"}
 	rng := rand.New(rand.NewSource(run.Seed))
@@ -61,7 +62,7 @@ func checkC04(args []string) {
 		id := fmt.Sprintf("v%d", i)
 		gens[id] = g
 		ln := vp8Line{ID: id, Bytes: vx.Ints(g.Bytes), W: g.W, H: g.H, RY: []int{}, RU: []int{}, RV: []int{}}
-		im, err := webp.Decode(bytes.NewReader(wrapVP8(g.Bytes)))
+		im, err := guardedDecode(wrapVP8(g.Bytes))
 		if err != nil {
 			realErr[id] = err.Error()
 			ln.Y, ln.U, ln.V = []int{}, []int{}, []int{}
@@ -258,7 +259,7 @@ func c04AlphaPart(run *vx.Run, rng *rand.Rand) {
 		}
 		id := fmt.Sprintf("y%d", i)
 		desc[id] = d
-		im, err := webp.Decode(bytes.NewReader(file))
+		im, err := guardedDecode(file)
 		alph, vp8 := findChunk(file, "ALPH"), findChunk(file, "VP8 ")
 		if alph == nil {
 			continue // opaque encoder output
